@@ -14,8 +14,9 @@ Import ListNotations.
    CapLength, -=, clear, tolower/toupper, resize, reserve, assign(text, n), ==/cmp/icmp) under
    the genuine preconditions only: variables among the nv slots; the non-const operator[]
    (with a non-zero byte), tolower and toupper on strings that have storage (the code
-   asserts m_data); C-string operations on strings without 0 bytes (a string holds 0 bytes
-   only between a growing resize() and its next assignment).  For such histories the model
+   asserts m_data); the operations with C-string semantics (append of a text, v = w.c_str(),
+   tolower/toupper) on strings without 0 bytes (a string holds 0 bytes only after a growing
+   resize() until they are overwritten or the string is given a new value).  For such histories the model
    of the reference-counted storage (EnsureAlloced with all its early returns and its
    reallocation path, EnsureDataWritable, AddRef/DelRef, the raw copy/cat/copyn loops, the
    temporary of a self-append) never crashes (no null m_data dereference, no store beyond
@@ -55,19 +56,8 @@ Theorem C18str_index_without_storage_refuted :
 Proof. exact index_null_differs. Qed.
 Print Assumptions C18str_index_without_storage_refuted.
 
-(* strings that hold 0 bytes after a growing resize *)
-Theorem C18str_realloc_after_resize_refuted :
-  run 1 [OResize 0 3; OReserve 0 20; OSetChar 0 0 65] <>
-  map Ok (spec_run 1 [OResize 0 3; OReserve 0 20; OSetChar 0 0 65]).
-Proof. exact realloc_after_resize_differs. Qed.
-Print Assumptions C18str_realloc_after_resize_refuted.
-
-Theorem C18str_unshare_after_resize_refuted :
-  run 2 [OResize 0 3; OCopy 1 0; OSetChar 0 1 66; OSetChar 0 0 65] <>
-  map Ok (spec_run 2 [OResize 0 3; OCopy 1 0; OSetChar 0 1 66; OSetChar 0 0 65]).
-Proof. exact unshare_after_resize_differs. Qed.
-Print Assumptions C18str_unshare_after_resize_refuted.
-
+(* strings that hold 0 bytes after a growing resize: append of a text and v = v.c_str() have
+   C-string semantics *)
 Theorem C18str_append_after_resize_refuted :
   run 1 [OResize 0 8; OAppendLit 0 [88; 89]%N] <> map Ok (spec_run 1 [OResize 0 8; OAppendLit 0 [88; 89]%N]).
 Proof. exact append_after_resize_differs. Qed.
@@ -79,8 +69,8 @@ Theorem C18str_assign_own_cstr_after_resize_refuted :
 Proof. exact assign_own_cstr_after_resize_differs. Qed.
 Print Assumptions C18str_assign_own_cstr_after_resize_refuted.
 
-(* ---- regressions: the twelve histories that were refuted before the fixes 913439b, b034b9f,
-   d63a379, c0a3b58 are now inside the alphabet of the theorem ------------------------------ *)
+(* ---- regressions: the fourteen histories that were refuted before the fixes 913439b, b034b9f,
+   d63a379, c0a3b58, ba5c363 are now inside the alphabet of the theorem ---------------------- *)
 Example C18str_regression_histories_are_safe :
   forallb (fun c => safe (fst c) (snd c))
     [(1, [OSetLit 0 hello; OResize 0 8]);
@@ -94,7 +84,9 @@ Example C18str_regression_histories_are_safe :
      (2, [OAppendStr 0 1]);
      (1, [OSetLit 0 [97; 98]%N; OAppendStr 0 0]);
      (2, [OSetLit 0 abc; OMinus 0 3; OCopy 1 0; OSetChar 0 0 65]);
-     (2, [OSetLit 0 abc; OCap 0 0; OCopy 1 0; OLower 0])] = true.
+     (2, [OSetLit 0 abc; OCap 0 0; OCopy 1 0; OLower 0]);
+     (1, [OResize 0 3; OReserve 0 20; OSetChar 0 0 65]);
+     (2, [OResize 0 3; OCopy 1 0; OSetChar 0 1 66; OSetChar 0 0 65])] = true.
 Proof. vm_compute. reflexivity. Qed.
 
 Example C18str_resize_grow_now :
@@ -150,15 +142,24 @@ Example C18str_model_history :
    Ok (RChar 97, [([97]%N, 1); ([88; 98; 99; 97; 98; 99; 33]%N, 7); ([97; 98]%N, 2)])].
 Proof. vm_compute. reflexivity. Qed.
 
-(* what the model (and the real code) still does behind a 0 byte: after resize(3) and a
-   reserve that reallocates, only the C string was copied; once the first byte is set,
-   c_str() finds no terminator inside the storage *)
-Example C18str_realloc_after_resize_in_the_model :
-  run 1 [OResize 0 3; OReserve 0 20; OSetChar 0 0 65] =
-  [Ok (RNone, [([], 3)]); Ok (RNone, [([], 3)]); Crash Overflow].
+(* resize, then a reallocation / an unshare, then fill through operator[]: the bytes behind
+   the first 0 are kept (ba5c363) *)
+Example C18str_realloc_after_resize_now :
+  run 1 [OResize 0 3; OReserve 0 20; OSetChar 0 1 66; OSetChar 0 0 65] =
+  [Ok (RNone, [([], 3)]); Ok (RNone, [([], 3)]); Ok (RNone, [([], 3)]); Ok (RNone, [([65; 66]%N, 3)])].
 Proof. vm_compute. reflexivity. Qed.
 
-Example C18str_realloc_after_resize_in_the_spec :
-  spec_run 1 [OResize 0 3; OReserve 0 20; OSetChar 0 0 65] =
-  [(RNone, [([], 3)]); (RNone, [([], 3)]); (RNone, [([65]%N, 3)])].
+Example C18str_unshare_after_resize_now :
+  run 2 [OResize 0 3; OCopy 1 0; OSetChar 0 1 66; OSetChar 0 0 65] =
+  [Ok (RNone, [([], 3); ([], 0)]); Ok (RNone, [([], 3); ([], 3)]);
+   Ok (RNone, [([], 3); ([], 3)]); Ok (RNone, [([65; 66]%N, 3); ([], 3)])].
+Proof. vm_compute. reflexivity. Qed.
+
+(* what remains a precondition: append continues at the first 0 byte *)
+Example C18str_append_after_resize_in_the_model :
+  run 1 [OResize 0 8; OAppendLit 0 [88; 89]%N] = [Ok (RNone, [([], 8)]); Ok (RNone, [([88; 89]%N, 10)])].
+Proof. vm_compute. reflexivity. Qed.
+
+Example C18str_append_after_resize_in_the_spec :
+  spec_run 1 [OResize 0 8; OAppendLit 0 [88; 89]%N] = [(RNone, [([], 8)]); (RNone, [([], 10)])].
 Proof. vm_compute. reflexivity. Qed.
